@@ -16,6 +16,17 @@ func (s *Schedule) Matches(w time.Time) bool {
 	return ok
 }
 
+// Mismatch names the first field, from the coarsest, whose wall-clock value in w
+// is not allowed by the schedule ("month", "day", "hour", "minute", "second"),
+// or "" if w matches.
+func (s *Schedule) Mismatch(w time.Time) string {
+	if s.Month>>uint(w.Month())&1 == 0 {
+		return "month"
+	}
+	_, level := s.matchLevel(w)
+	return [...]string{"day", "hour", "minute", "second", ""}[level]
+}
+
 // matchLevel: level 0 = month or day wrong, 1 = hour wrong, 2 = minute wrong,
 // 3 = second wrong, 4 = match. w must read the zone's wall clock.
 func (s *Schedule) matchLevel(w time.Time) (bool, int) {
